@@ -45,7 +45,7 @@ DONE.update({
          "concurrent opens from both sides under every schedule within the bound for id scripts that force a zero draw, a draw of a live id, identical draws on both sides and repeated collisions; a raw peer rejecting 0..3 proposals for every max_flow_id_retries 1..3; loom explores two threads inside insert_new_flow exhaustively",
          "poll granularity for psim; loom substitutes its lock models"),
  "C08": ("psim", "fault_enumeration", "every fault kind injected at every scheduling point of every schedule within the deviation bound of a busy two-endpoint scenario, run to quiescence",
-         "faults {cut a->b, cut b->a, cut both, drop Multiplexor A, drop Multiplexor B} x every point (incl. quiescence) x schedules <= k deviations; everything must resolve with the documented results and a drop over a healthy transport must flush what was queued before it, then close exactly once",
+         "faults {cut a->b, cut b->a, cut both, drop Multiplexor A, drop Multiplexor B} x every point (incl. quiescence) x schedules <= k deviations; plus a second fault (each transport failure, or the drop of the other side's Multiplexor) at every later point after a local drop; everything must resolve with the documented results and a drop over a healthy transport must flush what was queued before it, then close exactly once",
          "cuts are reported failures; silent loss is covered by keepalive (C16); peer Close / invalid frame by C10's raw peer"),
 })
 
